@@ -25,10 +25,49 @@ class Module(object):
             self.tree = ast.parse(self.source, filename=rel)
             self.modernised = -1
         self.normalised = normalise(self.tree)
+        from .normalise import module_constants
+        self.constants_inlined = module_constants(self.tree)
+        self._import_map = None
         for node in ast.walk(self.tree):
             for child in ast.iter_child_nodes(node):
                 child._parent = node
         self.tree._parent = None
+
+
+def module_import_map(module):
+    """names bound by the import statements at the top level of a module:
+       name -> ('module', dotted)  for `import a.b as name` / `from a import b` (resolved later against the package)
+       name -> ('object', dotted module, original name)  for `from a.b import f as name`
+    `import a.b` binds `a`; the dotted use `a.b.f` is resolved from the attribute chain itself."""
+    if module._import_map is not None:
+        return module._import_map
+    pkg_parts = module.rel.replace(os.sep, '/').split('/')[:-1]        # ['sfc_models', 'gl_book']
+    out = {}
+    for st in module.tree.body:
+        stmts = [st]
+        if isinstance(st, ast.Try):
+            stmts = list(st.body)
+        elif isinstance(st, ast.If):
+            stmts = list(st.body) + list(st.orelse)
+        for s_ in stmts:
+            if isinstance(s_, ast.Import):
+                for a in s_.names:
+                    if a.asname:
+                        out[a.asname] = ('module', a.name)
+                    else:
+                        out[a.name.split('.')[0]] = ('module', a.name.split('.')[0])
+            elif isinstance(s_, ast.ImportFrom):
+                base = s_.module or ''
+                if s_.level:
+                    up = pkg_parts[:len(pkg_parts) - (s_.level - 1)] if s_.level - 1 <= len(pkg_parts) else []
+                    base = '.'.join(up + ([base] if base else []))
+                for a in s_.names:
+                    if a.name == '*':
+                        out.setdefault('*', []).append(base)
+                        continue
+                    out[a.asname or a.name] = ('object', base, a.name)
+    module._import_map = out
+    return out
 
 
 class FuncInfo(object):
@@ -125,10 +164,12 @@ class Program(object):
                     continue
                 raise AnalysisError('cannot parse %s: %s' % (rel, e))
             self.modules[rel] = m
-        from .normalise import properties_to_methods
-        self.properties_rewritten = properties_to_methods([m_.tree for r_, m_ in self.modules.items() if self.is_core(r_)])
+        from .normalise import properties_to_methods, records_to_tuples
+        core_trees = [m_.tree for r_, m_ in self.modules.items() if self.is_core(r_)]
+        self.properties_rewritten = properties_to_methods(core_trees)
+        self.records_rewritten = records_to_tuples(core_trees)
         for rel, m in self.modules.items():
-            if self.properties_rewritten:
+            if self.properties_rewritten or self.records_rewritten:
                 for node in ast.walk(m.tree):
                     for child in ast.iter_child_nodes(node):
                         child._parent = node
@@ -221,6 +262,47 @@ class Program(object):
                 continue
             out.append(f)
         return sorted(out, key=lambda f: (f.module.rel, f.node.lineno))
+
+    def module_of_dotted(self, dotted):
+        """'sfc_models.utils' -> Module or None"""
+        rel = dotted.replace('.', '/')
+        for cand in (rel + '.py', rel + '/__init__.py'):
+            m = self.modules.get(cand) or self.modules.get(cand.replace('/', os.sep))
+            if m is not None:
+                return m
+        return None
+
+    def imported_function(self, module, expr):
+        """the module-level function of the package that `expr` (a Name or an attribute chain, as written in `module`) denotes
+        through the module's import statements, or None"""
+        imap = module_import_map(module)
+        if isinstance(expr, ast.Name):
+            ent = imap.get(expr.id)
+            if ent is not None and ent[0] == 'object':
+                m = self.module_of_dotted(ent[1])
+                if m is not None:
+                    return self.functions.get((m.rel, ent[2]))
+            if ent is None:
+                for base in imap.get('*', []):
+                    m = self.module_of_dotted(base)
+                    if m is not None and (m.rel, expr.id) in self.functions and not expr.id.startswith('_'):
+                        return self.functions[(m.rel, expr.id)]
+            return None
+        chain = attr_chain(expr)
+        if not chain or len(chain) < 2:
+            return None
+        head, fname = chain[:-1], chain[-1]
+        ent = imap.get(head[0])
+        if ent is None:
+            return None
+        if ent[0] == 'module':
+            dotted = '.'.join([ent[1]] + head[1:])
+        else:
+            dotted = '.'.join([ent[1], ent[2]] + head[1:])
+        m = self.module_of_dotted(dotted)
+        if m is None:
+            return None
+        return self.functions.get((m.rel, fname))
 
     def definitions_of(self, method_name, core_only=True):
         return [f for f in self.all_functions(core_only) if f.name == method_name]
